@@ -42,7 +42,8 @@ def common_doc(r, depth=3):
             return r.choice((0, 1, 2, 7, 10, 42, 1000, -3, 2 ** 40))
         if k < 0.8:
             return r.choice((True, False))
-        return r.choice((0.5, 1.5, 2.25, -0.75, 100.125))
+        # (floats whose shortest text has an exponent and no fraction - 1e+16 - are written differently by every format)
+        return r.choice((0.5, 1.5, 2.25, -0.75, 100.125, 1e16, 5e+20, 2e+17, 1e100, 1e-7, 1.5e+16))
     if c < 0.65:
         return [common_doc(r, depth - 1) for _ in range(r.randint(0, 4))]
     ks = r.sample(("a", "b", "c", "ab", "key", "Name", "x1", "yes", "no", "null", "n1"), r.randint(0, 4))
